@@ -17,6 +17,7 @@ macro_rules! vcover {
 
 pub mod src;
 pub mod fields;
+pub mod order;
 
 #[cfg(verif_replay)]
 #[test]
@@ -33,6 +34,10 @@ fn dispatch(name: &str, s: &mut src::ReplaySrc) -> bool {
         "fields_select" => fields::fields_select_body(s),
         "fields_prev_in_result" => fields::fields_prev_in_result_body(s),
         "member_consistency" => fields::member_consistency_body(s),
+        "cmp_matches_spec_f64" => order::cmp_matches_spec_body::<f64, _>(s),
+        "cmp_matches_spec_f32" => order::cmp_matches_spec_body::<f32, _>(s),
+        "compare_segments_matches_spec_f64" => order::compare_segments_matches_spec_body::<f64, _>(s),
+        "compare_segments_matches_spec_f32" => order::compare_segments_matches_spec_body::<f32, _>(s),
         _ => return false,
     }
     true
